@@ -16,7 +16,7 @@ RULE = ("kinds: arith (every ordered pair of the four spatial-vector classes x l
         "symmetry, sum, I*a, I*v), transform (SE3 * vector = Ad x or Ad' x, class preserved). Vector magnitudes 1e-6..1e6. "
         "Non-trivial: all six components non-zero (vectors), centre of mass != 0 (inertia), rotation and translation both "
         "non-zero (transform).")
-RULE = RULE + probes.RULE_TEXT + probes.VARIANT_TEXT
+RULE = RULE + probes.RULE_TEXT + probes.VARIANT_TEXT + probes.OWN_TEXT
 ASSUMPTIONS = ["1e-9 relative to the product of operand magnitudes", "reference adjoint from pbt/refs.py"]
 
 VCLASSES = ["SpatialVelocity", "SpatialAcceleration", "SpatialForce", "SpatialMomentum"]
@@ -44,8 +44,21 @@ def gen_arith_cells(tier):
                     yield {"kind": "arith", "A": A, "B": B, "x": base[:m], "y": [list(reversed(v)) for v in base[:n]]}
 
 
+def vec6z():
+    """6-vectors, a quarter of them with an exactly zero linear or angular half (pure translation / pure rotation, a
+    force without moment, ...)"""
+    def z(t):
+        v, which = list(t[0]), t[1]
+        if which == "lin":
+            v[:3] = [0.0, 0.0, 0.0]
+        elif which == "ang":
+            v[3:] = [0.0, 0.0, 0.0]
+        return v
+    return st.tuples(vec6(), st.sampled_from([None, None, None, None, None, None, "lin", "ang"])).map(z)
+
+
 def s_cross():
-    return st.fixed_dictionaries({"kind": st.just("cross"), "v": vec6(), "m": vec6(), "f": vec6(),
+    return st.fixed_dictionaries({"kind": st.just("cross"), "v": vec6z(), "m": vec6z(), "f": vec6z(),
                                   "F": st.sampled_from(["SpatialForce", "SpatialMomentum"])})
 
 
@@ -72,7 +85,7 @@ def s_transform():
 
 
 def check_case(case):
-    if case.get("kind") in ("hist", "aug", "variant"):
+    if case.get("kind") in ("hist", "aug", "variant", "own"):
         return probes.run(case, PROPERTY_ID)
     return {"arith": _arith, "cross": _cross, "inertia": _inertia, "transform": _transform}[case["kind"]](case)
 
@@ -319,7 +332,7 @@ def _transform(case):
 
 
 def classify(case):
-    if case.get("kind") in ("hist", "aug", "variant"):
+    if case.get("kind") in ("hist", "aug", "variant", "own"):
         return probes.classify(case)
     k = case["kind"]
     lab = {"kind:" + k: True}
